@@ -173,6 +173,7 @@ var _ uuid.UUID
 //@ ensures [wf] wfpq(pq)
 //@ ensures [len] len(qs(pq.queue)) == old(len(qs(pq.queue))) - 1
 //@ ensures [root] ret == old(qs(pq.queue)[0]) && ret != nil && qP(ret)
+//@ ensures [samearray] qs(pq.queue).ref == old(qs(pq.queue).ref) && qs(pq.queue).off == old(qs(pq.queue).off)
 //@ ensures [extremal] forall k int :: 0 <= k && k < old(len(qs(pq.queue))) ==> old(!hless(pq.queue, k, 0))
 //@ uselemma old rootIsExtremal(pq.queue, len(qs(pq.queue)))
 //@ modifies cell(pq.queue.(*minPriorityQueue)), cell(pq.queue.(*maxPriorityQueue)), mem(qs(pq.queue))
